@@ -108,6 +108,9 @@ type Ctx struct {
 	splitting bool
 	curExecFrame *frame
 	defAxioms map[*ssa.Function]bool
+	ghostFC   *FuncContract  // the function under verification (its ghost sums are visible in its clauses)
+	ghostEnv  *Env           // parameters in the entry state
+	ghostInst map[*Term]bool // recurrence instances already assumed
 	started   time.Time
 	trivial   int
 	globals   map[*Cell]*Val
